@@ -17,7 +17,8 @@ Local Open Scope string_scope.
 (* 1. Every public or protected method of the regenerated table: at every point where an exception can leave the method
       (explicit throw, family call, constructor, external call; calls of other methods of the class inlined), no data
       member of the grid has been modified — except for the named lists, where exactly the stated members can have been:
-        make*            all guards, then clear(), then construction: cleared, at most `llimits` assigned
+        make*            all guards (every explicit throw statement) while nothing is modified, then clear(), then
+                         construction that may still throw: cleared, at most `llimits` assigned
         read*            header guards, then clear(), body into temporaries, commit last: cleared, nothing assigned
         copy             cleared, at most `base` assigned
         limits first     only `llimits`
@@ -158,9 +159,10 @@ Proof. split; vm_compute; reflexivity. Qed.
 
 (* clear() before the guards (the mutant "makeGlobalGrid clears before validating") is not the make pattern *)
 Example c14_check_rejects_early_clear :
-  r_clear_then ["llimits"] (run (Scope (block [Do EClear; If "dimensions < 1" (Do (EThrow InvalidArgument)) Skip;
-                                               Do (EMut "llimits"); Do (ECtor "make_unique<GridGlobal>"); Do (EMut "base")])) start) = true /\
-  r_only [] (run (Scope (block [Do EClear; If "dimensions < 1" (Do (EThrow InvalidArgument)) Skip])) start) = false.
+  r_guards_first (run (Scope (block [Do EClear; If "dimensions < 1" (Do (EThrow InvalidArgument)) Skip;
+                                     Do (EMut "llimits"); Do (ECtor "make_unique<GridGlobal>"); Do (EMut "base")])) start) = false /\
+  r_guards_first (run (Scope (block [If "dimensions < 1" (Do (EThrow InvalidArgument)) Skip; Do EClear;
+                                     Do (EMut "llimits"); Do (ECtor "make_unique<GridGlobal>"); Do (EMut "base")])) start) = true.
 Proof. split; vm_compute; reflexivity. Qed.
 
 (* the semantics can throw after a mutation: the soundness theorem is not vacuous *)
